@@ -105,6 +105,8 @@ def build(env, p):
     w.comm_failed_at = []
     if p.get('dopoll_fail'):
         w.dopoll_kind = ['secop', 'silent', 'comm', 'other', 'timeout'][env.choice('dopollkind', 5)]
+    if p.get('initial_fail'):
+        w.initial_kind = ['secop', 'silent', 'other', 'comm', 'timeout'][env.choice('initialkind', 5)]
     if p.get('persistent'):
         w.persistent_name = ['value', 'status', 'p1'][env.choice('failing', 3)]
         w.persistent_kind = ['secop', 'silent', 'other', 'comm', 'timeout'][env.choice('failkind', 5)]
@@ -159,6 +161,23 @@ def build(env, p):
 
         if p.get('nopoll_value'):
             read_value = nopoll(read_value)      # the main value marked as not polled
+
+        if p.get('initial_fail'):
+            def initialReads(self):
+                # the documented use: read once at start-up what is not polled afterwards - and that read fails
+                if self.name == 'm0':
+                    kind = w.initial_kind
+                    w.log.append(('func', self.name, 'initialReads', w.clock.now, w.clock.now, kind))
+                    if kind == 'secop':
+                        raise HardwareError('initial')
+                    if kind == 'silent':
+                        raise SilentHW('initial')
+                    if kind == 'comm':
+                        w.comm_failed_at.append(w.clock.now)
+                        raise CommunicationFailedError('initial')
+                    if kind == 'timeout':
+                        raise TimeoutSECoPError('initial')
+                    raise ValueError('initial')
 
         def doPoll(self):
             w.log.append(('doPoll', self.name, w.clock.now))
@@ -226,6 +245,9 @@ def cases(tier):
     out.append({'fn': 'run_poll', 'id': 'dopoll-raises-directly', 'params': {'interval': 1, 'slow': 2, 'nmod': 2, 'K': 8, 'change': None,
                                                                            'nsym': 0, 'nfailsym': 0, 'dopoll_fail': True, 'maxpolls': 40,
                                                                            'concrete_t0': True}})
+    out.append({'fn': 'run_poll', 'id': 'initial-reads-raise', 'params': {'interval': 1, 'slow': 2, 'nmod': 2, 'K': 6, 'change': None,
+                                                                        'nsym': 0, 'nfailsym': 0, 'initial_fail': True, 'maxpolls': 40,
+                                                                        'concrete_t0': True}})
     out.append({'fn': 'run_poll', 'id': 'change-interval-while-fast', 'params': {'interval': 5, 'slow': 15, 'nmod': 1, 'nsym': 0, 'nfailsym': 0,
                                                                                'K': 7, 'change': 'interval-while-fast', 'maxpolls': 40,
                                                                                'concrete_t0': True}})
@@ -295,8 +317,8 @@ def run_poll(env, p):
         slow = p['slow'] if mi == 0 else p.get('slow2', p['slow'])
         mp = [e for e in polls if e[1] == m.name]
         # initial round: every polled parameter read once before the started callback
-        first = [e for e in funcs if e[1] == m.name and e[3] < w.started[0]]
-        if not [t for t in w.comm_failed_at if t < w.started[0]]:
+        first = [e for e in funcs if e[1] == m.name and e[3] < w.started[0] and e[2] != 'initialReads']
+        if not [t for t in w.comm_failed_at if t <= w.started[0]]:
             # (a communication failure at start-up ends the first round by design)
             env.check({e[2] for e in first} == {'value', 'status', 'p1'} - set(unpolled), K_ + '/initial-reads', sorted({e[2] for e in first}))
         if mp:
